@@ -135,11 +135,76 @@ pub fn run(ctx: &mut Ctx) {
         ctx.case("session_keys_device_foreign_reader", desc, obs, Some(("c08.session_keys", args.clone())), Some(("c08.spec_keys", args)), true);
         ctx.rng = rng;
     }
+    // (a'') a third-party mdoc: its engagement is NOT in the encoding this library's own encoder writes (BLE options in
+    // ascending key order as in ISO Annex D, non-minimal heads, foreign COSE_Key member order).  The reader's
+    // transcript must be over the engagement bytes as received.
+    let n = ctx.budget(8, 240);
+    for i in 0..n {
+        let mut rng = ctx.rng.clone();
+        let dsk = p256::SecretKey::random(&mut rng);
+        let ep = dsk.public_key().to_encoded_point(false);
+        let (x, y) = (ep.x().unwrap().to_vec(), ep.y().unwrap().to_vec());
+        let form = i % 4;
+        let key_bytes: Vec<u8> = if form % 2 == 0 { [vec![0xa4, 0x01, 0x02, 0x20, 0x01, 0x21, 0x58, 0x20], x.clone(), vec![0x22, 0x58, 0x20], y.clone()].concat() }
+                                 else { [vec![0xa4, 0x20, 0x01, 0x21, 0x58, 0x20], x.clone(), vec![0x22, 0x58, 0x20], y.clone(), vec![0x01, 0x02]].concat() };
+        let uuid: [u8; 16] = rng.gen();
+        let mut de_bytes: Vec<u8> = vec![];
+        match form {
+            // {0:"1.0", 1:[1, 24(key)], 2:[[2, 1, {0:false, 1:true, 11:uuid}]]}  -- ascending option keys
+            0 | 1 => {
+                de_bytes.extend([0xa3, 0x00, 0x63, b'1', b'.', b'0', 0x01, 0x82, 0x01, 0xd8, 0x18, 0x58, key_bytes.len() as u8]);
+                de_bytes.extend(&key_bytes);
+                de_bytes.extend([0x02, 0x81, 0x83, 0x02, 0x01, 0xa3, 0x00, 0xf4, 0x01, 0xf5, 0x0b, 0x50]);
+                de_bytes.extend(uuid);
+            }
+            // the same with non-minimal heads on the outer map keys and the cipher suite
+            2 => {
+                de_bytes.extend([0xa3, 0x18, 0x00, 0x63, b'1', b'.', b'0', 0x18, 0x01, 0x82, 0x18, 0x01, 0xd8, 0x18, 0x58, key_bytes.len() as u8]);
+                de_bytes.extend(&key_bytes);
+                de_bytes.extend([0x18, 0x02, 0x81, 0x83, 0x02, 0x01, 0xa3, 0x00, 0xf4, 0x01, 0xf5, 0x0b, 0x50]);
+                de_bytes.extend(uuid);
+            }
+            // no retrieval methods, indefinite-length outer map
+            _ => {
+                de_bytes.extend([0xbf, 0x00, 0x63, b'1', b'.', b'0', 0x01, 0x82, 0x01, 0xd8, 0x18, 0x58, key_bytes.len() as u8]);
+                de_bytes.extend(&key_bytes);
+                de_bytes.push(0xff);
+            }
+        }
+        let qr = format!("mdoc:{}", base64::encode_config(&de_bytes, base64::Config::new(base64::CharacterSet::UrlSafe, false)));
+        let first: std::collections::BTreeMap<String, Vec<String>> = [(NS.to_string(), vec!["family_name".to_string()])].into_iter().collect();
+        let desc = json!({"foreign_engagement_form": form});
+        let r = catch(|| isomdl::presentation::reader::SessionManager::establish_session(qr.clone(), namespaces_of(&first), Default::default()));
+        let (rdr, est, ble) = match r {
+            Ok(Ok(t)) => t,
+            Ok(Err(_)) => { ctx.count(&format!("foreign_mdoc:form{form}:refused")); ctx.case("foreign_mdoc:refused", desc, Value::Null, None, None, false); ctx.rng = rng; continue }
+            Err(p) => { ctx.case("session_keys_reader_foreign_mdoc", desc, arr(vec![text("panic"), text(&p)]), None, Some(("c08.spec_keys", vec![bytes(&[]), bytes(&de_bytes), bytes(&[]), Value::Null])), true); ctx.rng = rng; continue }
+        };
+        ctx.count(&format!("foreign_mdoc:form{form}:keys"));
+        let estv = crate::runner::from_bytes(&est).unwrap();
+        let erk_bytes = match map_get(&estv, "eReaderKey") { Some(Value::Tag(24, b)) => b.as_bytes().unwrap().clone(), _ => vec![] };
+        let erk = crate::runner::from_bytes(&erk_bytes).unwrap();
+        let get = |lbl: i64| erk.as_map().unwrap().iter().find(|(k, _)| k.as_integer().map(|i| i128::from(i)) == Some(lbl as i128)).map(|(_, v)| v.as_bytes().unwrap().clone()).unwrap();
+        let rpub = p256::PublicKey::from_encoded_point(&p256::EncodedPoint::from_affine_coordinates(get(-2).as_slice().into(), get(-3).as_slice().into(), false)).unwrap();
+        let zab = p256::ecdh::diffie_hellman(dsk.to_nonzero_scalar(), rpub.as_affine()).raw_secret_bytes().to_vec();
+        let rk = rdr_view(&rdr);
+        let args = vec![bytes(&zab), bytes(&de_bytes), bytes(&erk_bytes), Value::Null];
+        ctx.case("session_keys_reader_foreign_mdoc", desc.clone(), arr(vec![bytes(&rk.sk_reader), bytes(&rk.sk_device)]), Some(("c08.session_keys", args.clone())), Some(("c08.spec_keys", args)), true);
+        ctx.case("ble_ident_reader_foreign_mdoc", desc, bytes(&ble), Some(("c08.ble_ident", vec![bytes(&key_bytes)])), Some(("c08.spec_ble", vec![bytes(&key_bytes)])), true);
+        ctx.rng = rng;
+    }
     // (b) the public derive_session_key with hand-made transcripts: other handovers, non-canonical engagement bytes
     let n = ctx.budget(60, 3000);
     for i in 0..n {
         let a = p256::SecretKey::random(&mut ctx.rng);
-        let b = p256::SecretKey::random(&mut ctx.rng);
+        let mut b = p256::SecretKey::random(&mut ctx.rng);
+        if i % 10 == 9 {
+            // a shared x-coordinate with a zero first octet (1 pair in 256): Z_AB is the fixed-length 32-octet field element
+            for _ in 0..4000 {
+                if p256::ecdh::diffie_hellman(a.to_nonzero_scalar(), b.public_key().as_affine()).raw_secret_bytes()[0] == 0 { ctx.count("derive:zab-leading-zero"); break; }
+                b = p256::SecretKey::random(&mut ctx.rng);
+            }
+        }
         let ss = p256::ecdh::diffie_hellman(a.to_nonzero_scalar(), b.public_key().as_affine());
         let zab = ss.raw_secret_bytes().to_vec();
         let ep = b.public_key().to_encoded_point(false);
